@@ -303,6 +303,12 @@ func (m *Migrator) migrateSwamp(folderPath string) {
 
 	// Step 2: Write V2 file (including swamp name as metadata entry)
 	hydFilePath := folderPath + ".hyd"
+	// Never touch an existing target: the writer would append the legacy entries to it, and a failed
+	// write or verification would delete it. Both the legacy folder and the existing file are left as they are.
+	if _, statErr := os.Stat(hydFilePath); statErr == nil {
+		m.recordFailure(folderPath, "target file already exists: "+hydFilePath, "write")
+		return
+	}
 	err = m.writeV2File(hydFilePath, entries, swampName)
 	if err != nil {
 		m.recordFailure(folderPath, err.Error(), "write")
